@@ -851,43 +851,57 @@ def run_fuzz(case, ctx):
     for i, s in enumerate(FUZZ_SEEDS):
         with open(os.path.join(cdir, "seed%d" % i), "wb") as f:
             f.write(encode(s))
-    seed = (ctx.seed * 1000 + case["shard"] + 1) & 0x7FFFFFFF
+    import time
     env = _rt_env()
-    cmd = [exe, "-seed=%d" % seed, "-runs=%d" % case["runs"], "-max_len=%d" % case["max_len"], "-timeout=60",
-           "-rss_limit_mb=4096", "-print_final_stats=1", "-artifact_prefix=" + adir + "/", cdir]
-    try:
-        r = subprocess.run(cmd, env=env, capture_output=True, text=True, errors="replace", timeout=case["wall"])
-    except subprocess.TimeoutExpired:
-        ctx.skip("campaign stopped by wall cap (inconclusive remainder)")
-        return
+    t_end = time.time() + case["wall"]
     execs = cov = 0
-    for l in r.stderr.splitlines():
-        if l.startswith("stat::number_of_executed_units:"):
-            execs = int(l.split(":")[-1])
-        if " cov: " in l:
-            try:
-                cov = int(l.split(" cov: ")[1].split()[0])
-            except ValueError:
-                pass
+    chunk_no = 0
+    while execs < case["runs"]:
+        # the campaign runs in chunks on one corpus directory so that a wall cap keeps what was done so far
+        n = min(case["chunk"], case["runs"] - execs)
+        seed = (ctx.seed * 100000 + case["shard"] * 1000 + chunk_no + 1) & 0x7FFFFFFF
+        chunk_no += 1
+        left = t_end - time.time()
+        if left <= 5:
+            break
+        cmd = [exe, "-seed=%d" % seed, "-runs=%d" % n, "-max_len=%d" % case["max_len"], "-timeout=120",
+               "-rss_limit_mb=4096", "-print_final_stats=1", "-artifact_prefix=" + adir + "/", cdir]
+        try:
+            r = subprocess.run(cmd, env=env, capture_output=True, text=True, errors="replace", timeout=left)
+        except subprocess.TimeoutExpired:
+            break
+        done = 0
+        for l in r.stderr.splitlines():
+            if l.startswith("stat::number_of_executed_units:"):
+                done = int(l.split(":")[-1])
+            if " cov: " in l:
+                try:
+                    cov = max(cov, int(l.split(" cov: ")[1].split()[0]))
+                except ValueError:
+                    pass
+        if r.returncode != 0:
+            arts = sorted(glob.glob(os.path.join(adir, "*")))
+            raw = open(arts[0], "rb").read() if arts else b""
+            key, frames = _report(r.stderr)
+            raise Violation("libFuzzer campaign rc=%d: %s" % (r.returncode, " | ".join(key) or r.stderr[-300:]),
+                            frames=frames, raw=raw.hex(), ops=decode(raw)["ops"][:60],
+                            replay_hint="put {'raw': <hex>} as case of sub 'asan' to replay")
+        # libFuzzer counts the re-read corpus units of each chunk as executions too; only new runs are credited
+        execs += n if done >= n else done
     ctx.stat_max("fuzz_execs_per_campaign", execs)
     ctx.stat_max("fuzz_cov_edges", cov)
     ctx.stat_max("fuzz_corpus_units", len(os.listdir(cdir)))
     ctx.cls("campaign")
-    if r.returncode != 0:
-        arts = sorted(glob.glob(os.path.join(adir, "*")))
-        raw = open(arts[0], "rb").read() if arts else b""
-        key, frames = _report(r.stderr)
-        raise Violation("libFuzzer campaign rc=%d: %s" % (r.returncode, " | ".join(key) or r.stderr[-300:]),
-                        frames=frames, raw=raw.hex(), ops=decode(raw)["ops"][:60],
-                        replay_hint="put {'raw': <hex>} as case of sub 'asan' to replay")
-    if execs >= case["runs"]:
+    if execs < case["runs"]:
+        ctx.skip("campaign stopped by wall cap after %d%% of its runs (remainder inconclusive)" % (100 * execs // case["runs"]))
+    if execs >= min(case["runs"], 20000):
         ctx.nontrivial()
 
 
 def fuzz_cases(tier):
     if tier == "quick":
-        return [{"shard": i, "runs": 30000, "max_len": 160, "wall": 300} for i in range(2)]
-    return [{"shard": i, "runs": 1500000, "max_len": 320, "wall": 3000} for i in range(12)]
+        return [{"shard": i, "runs": 30000, "chunk": 30000, "max_len": 160, "wall": 300} for i in range(2)]
+    return [{"shard": i, "runs": 1000000, "chunk": 100000, "max_len": 320, "wall": 3000} for i in range(12)]
 
 
 def subs(tier):
